@@ -479,21 +479,20 @@ def all_options(spec):
                 yield from op['options']
 
 
-def spec_flags(spec) -> dict:
-    """Coarse, stable facts about the written value that known DMX-level defects depend on."""
+def spec_flags(spec, enc_family: str) -> dict:
+    """Coarse, stable facts about the written value that known DMX-level defects of that encoding depend on."""
     opts = list(all_options(spec))
-    return {
-        'scalar_matrix': any(o[1] == 'MATRIX' and not o[2] for o in opts),
-        'element_option': any(o[1] == 'ELEMENT' for o in opts),
-        'attr_name_needs_escape': any(set(o[0]) & set('"\\') for o in opts),
-    }
+    if enc_family == 'binary':
+        return {'scalar_matrix': any(o[1] == 'MATRIX' and not o[2] for o in opts),
+                'element_option': any(o[1] == 'ELEMENT' for o in opts)}
+    return {'attr_name_needs_escape': any(set(o[0]) & set('"\\') for o in opts)}
 
 
 def check_encoding(acc: core.Acc, case: dict, spec, enc, parts=None, expected=None, fmt_ver=2) -> str:
     enc_name = f'{enc[0]}{enc[1] if enc[0] == "binary" else ("_flat" if enc[1] else "")}'
     sig = dict(part=PART, enc=enc[0])
     if spec is not None:
-        sig.update(spec_flags(spec))
+        sig.update(spec_flags(spec, enc[0]))
     label = f'pcf via {enc_name}: {core.jdump(case)[:400]}'
 
     def shown(data: bytes) -> str:
